@@ -25,7 +25,7 @@ ASSUMPTIONS = [
     "n points per direction is order+1 (the library's orders 0..4 are the 1..5 point Gauss-Legendre rules)",
     "exact integrals are computed in rationals: int_{-1}^{1} x^k = 2/(k+1) for even k, 0 for odd k; int_0^1 x^k = 1/(k+1)",
 ]
-FLOORS = {"quick": {"rule_returned": 20, "monomial_exact": 300}, "thorough": {"rule_returned": 20, "monomial_exact": 300}}
+FLOORS = {"quick": {"rule_returned": 100, "monomial_exact": 1500}, "thorough": {"rule_returned": 100, "monomial_exact": 1500}}
 ORDERS = [0, 1, 2, 3, 4, 5, 6, "max"]
 
 
@@ -123,7 +123,9 @@ def run_shard(spec, R):
         return run_repo_tests(R, spec["repo_tests"])
     for dim in (1, 2, 3):
         for order in ORDERS:
-            for fn in ("gauss", "gauss_reference_cell"):
+            # call history per key: [-1,1]^d rule, unit-cell rule, then both again in the other order (a rule must
+            # not depend on which rules were requested before); every call is judged by its contract
+            for fn in ("gauss", "gauss_reference_cell", "gauss_reference_cell", "gauss", "gauss_reference_cell"):
                 if not R.want([fn, dim, order]):
                     continue
                 R.guarded(
@@ -131,6 +133,10 @@ def run_shard(spec, R):
                     lambda: getattr(q, fn)(dim, order),
                     unsupported=(NotImplementedError,),
                 )
+        for order in ORDERS:  # and once more in reverse order of requests
+            for fn in ("gauss_reference_cell", "gauss"):
+                if R.want([fn, dim, order]):
+                    R.guarded("returns_rule", lambda: getattr(q, fn)(dim, order), unsupported=(NotImplementedError,))
         if R.want(["reference_cell_corners", dim, "corners"]):
             R.guarded("returns_rule", lambda: q.reference_cell_corners(dim), unsupported=(NotImplementedError,))
     R.count("contract_evaluations", R.counters.get("rule_returned", 0))
